@@ -14,7 +14,10 @@ declare -A MAP=(
  [C06-forward-cancelled-waiting-task]="C06" [C08-ipykernel-regex-loosened]="C08" [C09-listdir-once-per-worker]="C09"
  [C10-falsy-percall-value-falls-back]="C10" [C11-respawn-dead-worker]="C11" [C13-function-pickle-memo-by-id]="C13 C08"
  [C14-reuse-leftover-input-file]="C14" [C15-preset-memory-aliased-by-fast-path]="C15" [C16-parse-arguments-shared-default-dict]="C16"
- [C17-second-init-treated-as-call]="C17" [C18-launch-cores-max-of-percall-and-default]="C18 C10" [C20-list-recursion-drops-label]="C20" [C19-base-init-after-default-cores]="C19" [C20-dedup-edges-per-node-pair]="C20"
+ [C17-second-init-treated-as-call]="C17" [C18-launch-cores-max-of-percall-and-default]="C18 C10" [C20-list-recursion-drops-label]="C20"
+ [C14-output-file-not-renamed-from-input]="C14 C13" [C13-output-file-not-renamed-from-input]="C14 C13" [C05-base-process-cleared-only-when-waiting]="C05"
+ [C06-drain-skips-task-done-for-cancelled]="C06 C05" [C01-socket-caches-function-pickle-by-id]="C01" [C19-worker-cap-after-positivity-check]="C19"
+ [C18-returned-exception-treated-as-raised]="C18" [C12-shutdown-skipped-when-not-yet-connected]="C12" [C19-base-init-after-default-cores]="C19" [C20-dedup-edges-per-node-pair]="C20"
 )
 for S in $(ls seeded | sort); do
   [ -n "${MAP[$S]:-}" ] || { echo "seed=$S : no mapping"; continue; }
